@@ -84,7 +84,16 @@ impl Relation for ArithRel {
     }
 }
 
+/// An honest delivery: raw public inputs and proof.
+#[derive(Clone)]
+pub struct Delivery {
+    pub pi: Vec<F>,
+    pub proof: Vec<u8>,
+}
+
 pub struct StdFixture {
+    /// further honest proofs of the same relation (other witnesses, same key)
+    pub pool: Vec<Delivery>,
     pub k: u32,
     pub vk: MidnightVK,
     pub vk_bytes_raw: Vec<u8>,
@@ -95,7 +104,12 @@ pub struct StdFixture {
     pub proof: Vec<u8>,
 }
 
-fn build<R: Relation>(rel: &R, instance: &R::Instance, witness: R::Witness) -> (StdFixture, MidnightPK<R>) {
+fn build<R: Relation>(
+    rel: &R,
+    instance: &R::Instance,
+    witness: R::Witness,
+    more: Vec<(R::Instance, R::Witness)>,
+) -> (StdFixture, MidnightPK<R>) {
     rayon::sim::isolated(1, || {
         let k = MidnightCircuit::from_relation(rel).min_k();
         let srs = fixtures::srs(k);
@@ -118,6 +132,19 @@ fn build<R: Relation>(rel: &R, instance: &R::Instance, witness: R::Witness) -> (
             &proof,
         )
         .expect("fixture proof verifies");
+        let mut pool = vec![Delivery { pi: R::format_instance(instance).unwrap(), proof: proof.clone() }];
+        for (j, (inst, wit)) in more.into_iter().enumerate() {
+            let pr = midnight_zk_stdlib::prove::<R, blake2b_simd::State>(
+                &srs,
+                &pk,
+                rel,
+                &inst,
+                wit,
+                ChaCha20Rng::from_seed([10 + j as u8; 32]),
+            )
+            .expect("fixture proof");
+            pool.push(Delivery { pi: R::format_instance(&inst).unwrap(), proof: pr });
+        }
         let mut vk_bytes_raw = vec![];
         vk.write(&mut vk_bytes_raw, SerdeFormat::RawBytes).unwrap();
         let mut vk_bytes_processed = vec![];
@@ -126,6 +153,7 @@ fn build<R: Relation>(rel: &R, instance: &R::Instance, witness: R::Witness) -> (
         pk.write(&mut pk_bytes_raw, SerdeFormat::RawBytes).unwrap();
         (
             StdFixture {
+                pool,
                 k,
                 vk,
                 vk_bytes_raw,
@@ -147,7 +175,13 @@ pub fn poseidon() -> Arc<StdFixture> {
         .get_or_init(|| {
             let w = [F::from(3), F::from(5), -F::ONE];
             let inst = <PoseidonChip<F> as HashCPU<F, F>>::hash(&w);
-            Arc::new(build(&PoseidonRel, &inst, w).0)
+            let more = (1..4u64)
+                .map(|i| {
+                    let w = [F::from(i), F::from(i * i + 1), F::from(7 * i)];
+                    (<PoseidonChip<F> as HashCPU<F, F>>::hash(&w), w)
+                })
+                .collect();
+            Arc::new(build(&PoseidonRel, &inst, w, more).0)
         })
         .clone()
 }
@@ -156,7 +190,13 @@ pub fn arith() -> Arc<StdFixture> {
     ARITH
         .get_or_init(|| {
             let (x, y) = (F::from(7), F::from(11));
-            Arc::new(build(&ArithRel, &(x * y + x, y), x).0)
+            let more = (1..4u64)
+                .map(|i| {
+                    let (x, y) = (F::from(100 + i), -F::from(i));
+                    ((x * y + x, y), x)
+                })
+                .collect();
+            Arc::new(build(&ArithRel, &(x * y + x, y), x, more).0)
         })
         .clone()
 }
